@@ -274,7 +274,9 @@ def struct_sig(d2, depth=0):
     return f
 
 
-POOLS = [["road", "roads", "oad", "", "x"], [0, 1, 2, 10, -1], [0.5, 1, 2.5, 0], [True, False, 1, 0], ["a", "b", "A"]]
+POOLS = [["road", "roads", "oad", "", "x"], [0, 1, 2, 10, -1], [0.5, 1, 2.5, 0], [True, False, 1, 0], ["a", "b", "A"],
+         # searched values that a missing key must not be confused with: None (what .get returns), "" and the empty containers
+         [None, "road", "", "roads"], [None, None, "x"]]
 
 
 def gen_objlist(r):
